@@ -67,6 +67,7 @@ type Op struct {
 	PID     uint16   `json:"pid,omitempty"` // explicit packet id (0 = allocate)
 	Alias   uint16   `json:"alias,omitempty"`
 	NoTopic bool     `json:"no_topic,omitempty"` // send empty topic (alias use)
+	Collide bool     `json:"collide,omitempty"` // use a packet id the broker currently has outstanding towards this client
 	MsgExp  uint32   `json:"msg_exp,omitempty"`
 	Size    int      `json:"size,omitempty"` // payload filler
 
